@@ -719,6 +719,11 @@ func runC05Scenario(rf *runFlags, rnd *rand.Rand, sum *Summary, cf *CasesFile, v
 		leaderIDs[i] = fmt.Sprint(id(b))
 	}
 	var props, flat, flatDescr []string
+	type seqTag struct {
+		li *uint64
+		n  int
+	}
+	var seqTags []seqTag
 	kinds := sum.hist("follower_proposals")
 	for _, e := range fents {
 		if e.Type != raftpb.EncodedEntry {
@@ -744,6 +749,7 @@ func runC05Scenario(rf *runFlags, rnd *rand.Rand, sum *Summary, cf *CasesFile, v
 			}
 			props = append(props, fmt.Sprintf("pseq %s %s", tag, cList(ids)))
 			kinds.Inc("sequence")
+			seqTags = append(seqTags, seqTag{cmd.LeaderIndex, len(ids)})
 			flat = append(flat, ids...)
 			flatDescr = append(flatDescr, fmt.Sprintf("%s:%d commands", tag, len(ids)))
 		case regattapb.Command_PUT_BATCH:
@@ -753,6 +759,22 @@ func runC05Scenario(rf *runFlags, rnd *rand.Rand, sum *Summary, cf *CasesFile, v
 		default:
 			props = append(props, fmt.Sprintf("pother %s", tag))
 			kinds.Inc("other " + cmd.Type.String())
+		}
+	}
+	// every proposal is tagged with the leader index of ITS last command (the index the follower records - and
+	// reports to waiting follower-API writers - once the proposal is applied)
+	if fl == leaderApplied && len(flat) <= len(leaderIDs) {
+		pos := uint64(len(leaderIDs) - len(flat)) // leader index of the command before the first one proposed since the last recovery
+		for k, st := range seqTags[len(seqTags)-len(flatDescr):] {
+			pos += uint64(st.n)
+			if st.li == nil || *st.li != pos {
+				got := "none"
+				if st.li != nil {
+					got = fmt.Sprint(*st.li)
+				}
+				sum.violate(caseNo, "a follower proposal is tagged with a leader index that is not the index of its last command", in, fmt.Sprintf("proposal %d of %v: tag %s, its last command is the leader's entry %d", k, flatDescr, got, pos))
+				break
+			}
 		}
 	}
 	// exactly once and in leader order: what the follower proposed to itself since its last recovery is a gap-free run
@@ -1016,6 +1038,11 @@ func runC05Restore(rf *runFlags, rnd *rand.Rand, sum *Summary, caseNo int) error
 		if err := put(fmt.Sprintf("bulk-%04d", i), bytes.Repeat([]byte{byte('a' + i%26)}, 4000)); err != nil {
 			return err
 		}
+	}
+	// the last record of the stream is large enough to cross the loader's flush threshold on its own: the final
+	// proposal then carries nothing but the leader index
+	if err := put("zzz-last", bytes.Repeat([]byte{'z'}, 600*1024)); err != nil {
+		return err
 	}
 	download := func() (snapFile, error) {
 		ctx, cancel := context.WithTimeout(context.Background(), 60*time.Second)
